@@ -85,6 +85,16 @@ def run(repo, res):
     # ---- R3 reported fields / each binding once -----------------------------------------------------
     api_model.apply(res, api_model.all_names_model(repo), {'all_names': 'C10-R3'}, 'supp/scope.py', 0)
 
+    nreg = 0
+    for cls, r in sorted(R.registration_records(repo).items()):
+        nreg += r['n']
+        res.check('C10-R3', '%s regions are registered with the module scope' % R.method_name(repo, cls), not r['bad'], r['line'][0],
+                  r['line'][1], 'the region(s) %s created while visiting %s are not registered with the module scope: all_names never '
+                  'enumerates the bindings made there, so an unused name bound in them is never reported'
+                  % (sorted({b for _v, b in r['bad']})[:3], cls), sample='%s: every created region is enumerated by all_names' % cls,
+                  nontrivial=False)
+    res.count('registered_regions', nreg, floor=800)
+
     # ---- R4 .used single writer -----------------------------------------------------------------------
     writers = []
     for rel, tree in repo.trees.items():
